@@ -60,7 +60,7 @@ fn step_strategy() -> impl Strategy<Value = Step> {
     ]
 }
 
-fn case_strategy(equal_sizes: bool) -> impl Strategy<Value = Case> {
+pub fn case_strategy(equal_sizes: bool) -> impl Strategy<Value = Case> {
     let sizes = if equal_sizes {
         (3u8..=10, 1usize..=5).prop_map(|(lg, n)| vec![lg; n]).boxed()
     } else {
@@ -299,7 +299,7 @@ fn run_typed<T: FrequentItemValue + Hash + Eq + Clone + std::fmt::Debug>(
     Ok(())
 }
 
-fn run_case(c: &Case, info: &mut CaseInfo) -> Result<(), Fail> {
+pub fn run_case(c: &Case, info: &mut CaseInfo) -> Result<(), Fail> {
     match c.kind % 3 {
         0 => run_typed::<i64>(c, info, &|id| id as i64 - 1000),
         1 => run_typed::<u64>(c, info, &|id| id.wrapping_mul(0x9E3779B97F4A7C15)),
